@@ -751,9 +751,17 @@ impl MDL {
                             // base_indices_index counts from the start of the LOD's index buffer, our indices from the mesh's
                             let base_index = shape_value.base_indices_index as usize
                                 - model.meshes[j as usize].start_index as u16 as usize;
-                            let old_vertex = vertices[indices[base_index] as usize];
-                            let new_vertex = vertices[shape_value.replacing_vertex_index as usize];
-                            let vertex = &mut morphed_vertices[indices[base_index] as usize];
+                            // Shape values can go stale (e.g. the mesh was given fewer vertices since), skip those
+                            let Some(&vertex_index) = indices.get(base_index) else {
+                                continue;
+                            };
+                            let (Some(&old_vertex), Some(&new_vertex)) = (
+                                vertices.get(vertex_index as usize),
+                                vertices.get(shape_value.replacing_vertex_index as usize),
+                            ) else {
+                                continue;
+                            };
+                            let vertex = &mut morphed_vertices[vertex_index as usize];
 
                             vertex.position[0] = new_vertex.position[0] - old_vertex.position[0];
                             vertex.position[1] = new_vertex.position[1] - old_vertex.position[1];
